@@ -222,3 +222,156 @@ Proof.
   intros H. unfold get_regions_record. apply regions_of_record_runs.
   induction H as [|l t Hl Ht IH]; cbn [map]; constructor; auto using chars_nonempty.
 Qed.
+
+(* ---------------------------------------------------------------------- *)
+(* The specification function `runs` against the mathematical object:
+   it covers exactly the non-N positions, by non-empty regions that are sorted
+   and separated by at least one base (hence each region is a maximal run). *)
+From CNV Require Import Spec.Regions.
+
+Section RunsChar.
+Context {A : Type} (isN : A -> bool).
+Notation runs_from := (runs_from isN).
+Notation nonN_at := (nonN_at isN).
+
+Lemma runs_from_nil pos o : runs_from [] pos o = close o pos.
+Proof. unfold Runs.runs_from. cbn. now replace (pos + 0) with pos by lia. Qed.
+
+Lemma runs_from_N c t pos o : isN c = true ->
+  runs_from (c :: t) pos o = close o pos ++ runs_from t (pos + 1) None.
+Proof.
+  intros Hc. unfold Runs.runs_from. cbn [Runs.runs_line length]. rewrite Hc.
+  destruct (Runs.runs_line isN t (pos + 1) None) as [out o'].
+  rewrite <- app_assoc. do 3 f_equal. lia.
+Qed.
+
+Lemma runs_from_nonN c t pos o : isN c = false ->
+  runs_from (c :: t) pos o =
+  runs_from t (pos + 1) (match o with Some s => Some s | None => Some pos end).
+Proof.
+  intros Hc. unfold Runs.runs_from. cbn [Runs.runs_line length]. rewrite Hc.
+  destruct (Runs.runs_line isN t (pos + 1) _) as [out o'].
+  do 2 f_equal. lia.
+Qed.
+
+Lemma char_at_cons (c : A) t x : 0 < x -> char_at (c :: t) x = char_at t (x - 1).
+Proof.
+  intros Hx. unfold char_at.
+  destruct (x <? 0) eqn:E1; [lia|]. destruct (x - 1 <? 0) eqn:E2; [lia|].
+  replace (Z.to_nat x) with (S (Z.to_nat (x - 1))) by lia. reflexivity.
+Qed.
+
+Lemma char_at_0 (c : A) t : char_at (c :: t) 0 = Some c.
+Proof. reflexivity. Qed.
+
+Lemma char_at_neg (l : list A) x : x < 0 -> char_at l x = None.
+Proof. intros. unfold char_at. destruct (x <? 0) eqn:E; [reflexivity|lia]. Qed.
+
+Lemma nonN_at_cons (c : A) t x : 0 < x -> nonN_at (c :: t) x <-> nonN_at t (x - 1).
+Proof. intros Hx. unfold Runs.nonN_at. now rewrite char_at_cons. Qed.
+
+Definition open_ok (o : option Z) (pos : Z) : Prop :=
+  match o with Some st => st <= pos | None => True end.
+
+Lemma runs_from_cover l : forall pos o x,
+  open_ok o pos ->
+  (cov (runs_from l pos o) x <->
+   (match o with Some st => st <= x < pos | None => False end) \/
+   (pos <= x /\ nonN_at l (x - pos))).
+Proof.
+  induction l as [|c t IH]; intros pos o x Hok.
+  - rewrite runs_from_nil. split.
+    + destruct o as [st|]; cbn [close]; [|intros H; now apply cov_nil in H].
+      rewrite cov_cons. intros [H|H]; [left; exact H|now apply cov_nil in H].
+    + intros [H|[_ (c & Hc & _)]].
+      * destruct o as [st|]; [|tauto]. cbn [close]. rewrite cov_cons. now left.
+      * unfold char_at in Hc. destruct (x - pos <? 0); [discriminate|].
+        destruct (Z.to_nat (x - pos)); discriminate.
+  - destruct (isN c) eqn:Hc.
+    + rewrite runs_from_N by assumption. rewrite cov_app, IH by exact I.
+      split.
+      * intros [H|[[]|[Hx Hn]]].
+        -- left. destruct o as [st|]; cbn [close] in H; [|now apply cov_nil in H].
+           apply cov_cons in H as [H|H]; [exact H|now apply cov_nil in H].
+        -- right. split; [lia|]. apply nonN_at_cons; [lia|].
+           now replace (x - pos - 1) with (x - (pos + 1)) by lia.
+      * intros [H|[Hx Hn]].
+        -- left. destruct o as [st|]; [|tauto]. cbn [close]. apply cov_cons. now left.
+        -- assert (Hne : x <> pos).
+           { intros ->. destruct Hn as (c' & Hc' & HN). replace (pos - pos) with 0 in Hc' by lia.
+             rewrite char_at_0 in Hc'. congruence. }
+           right; right. split; [lia|].
+           apply nonN_at_cons in Hn; [|lia].
+           now replace (x - (pos + 1)) with (x - pos - 1) by lia.
+    + rewrite runs_from_nonN by assumption.
+      assert (Hok' : open_ok (match o with Some s => Some s | None => Some pos end) (pos + 1)).
+      { destruct o as [st|]; cbn in *; lia. }
+      rewrite IH by exact Hok'.
+      assert (H0 : nonN_at (c :: t) 0) by (exists c; split; [apply char_at_0|exact Hc]).
+      split.
+      * intros [H|[Hx Hn]].
+        -- destruct (Z.eq_dec x pos) as [->|Hne].
+           ++ right. split; [lia|]. now replace (pos - pos) with 0 by lia.
+           ++ left. destruct o as [st|]; lia.
+        -- right. split; [lia|]. apply nonN_at_cons; [lia|].
+           now replace (x - pos - 1) with (x - (pos + 1)) by lia.
+      * intros [H|[Hx Hn]].
+        -- left. destruct o as [st|]; [lia|tauto].
+        -- destruct (Z.eq_dec x pos) as [->|Hne].
+           ++ left. destruct o as [st|]; cbn in Hok; lia.
+           ++ right. split; [lia|]. apply nonN_at_cons in Hn; [|lia].
+              now replace (x - (pos + 1)) with (x - pos - 1) by lia.
+Qed.
+
+(* [runs s] covers exactly the non-N positions of s *)
+Theorem runs_cover (s : list A) x : cov (runs isN s) x <-> nonN_at s x.
+Proof.
+  unfold runs. rewrite runs_from_cover by exact I.
+  replace (x - 0) with x by lia. split.
+  - intros [[]|[_ H]]; exact H.
+  - intros H. right. split; [|exact H].
+    destruct H as (c & Hc & _). destruct (Z_lt_ge_dec x 0) as [Hneg|]; [|lia].
+    rewrite char_at_neg in Hc by assumption. discriminate.
+Qed.
+
+Lemma runs_from_sep l : forall pos o,
+  match o with
+  | None => sep_from 1 (pos - 1) (runs_from l pos None)
+  | Some st => st < pos -> exists e t,
+       runs_from l pos (Some st) = (st, e) :: t /\ pos <= e /\ sep_from 1 e t
+  end.
+Proof.
+  induction l as [|c t IH]; intros pos o.
+  - destruct o as [st|]; rewrite runs_from_nil; cbn [close sep_from]; [|exact I].
+    intros Hst. exists pos, []. cbn. repeat split; lia.
+  - destruct (isN c) eqn:Hc.
+    + destruct o as [st|]; rewrite runs_from_N by assumption; cbn [close app].
+      * intros Hst. exists pos, (runs_from t (pos + 1) None). repeat split; [lia|].
+        specialize (IH (pos + 1) None). cbn in IH.
+        now replace (pos + 1 - 1) with pos in IH by lia.
+      * specialize (IH (pos + 1) None). cbn in IH.
+        eapply sep_from_weaken; [|exact IH]. lia.
+    + destruct o as [st|]; rewrite runs_from_nonN by assumption.
+      * intros Hst. specialize (IH (pos + 1) (Some st)). cbn in IH.
+        destruct IH as (e & t' & -> & He & Hs); [lia|].
+        exists e, t'. repeat split; [lia|exact Hs].
+      * specialize (IH (pos + 1) (Some pos)). cbn in IH.
+        destruct IH as (e & t' & -> & He & Hs); [lia|].
+        cbn [sep_from]. repeat split; [lia|lia|exact Hs].
+Qed.
+
+(* regions are non-empty, start at >= 0, sorted, separated by at least one base *)
+Theorem runs_sep (s : list A) : sep_from 1 (-1) (runs isN s).
+Proof. exact (runs_from_sep s 0 None). Qed.
+
+End RunsChar.
+
+Lemma noncanonical_spec (name : string) :
+  is_canonical_contig_name name = false <->
+  (name = "chrEBV"%string \/ str_prefix "NC" name = true \/ str_suffix "_random" name = true \/
+   str_infix "Un_" name = true \/ str_prefix "HLA-" name = true \/ str_suffix "_alt" name = true \/
+   ends_hap_digit (Str.chars name) = true \/ str_infix "chrM" name = true \/ str_infix "MT" name = true).
+Proof.
+  unfold is_canonical_contig_name, noncanonical, str_prefix, str_suffix, str_infix.
+  rewrite negb_false_iff, !orb_true_iff, String.eqb_eq. tauto.
+Qed.
